@@ -52,10 +52,14 @@ def check_converter_next(run, cx, cfg):
             ratio = self_field(ri)
             ok = (p['end'] == 'return' and len(evs) == 1 and is_call(evs[0][1], INTERP, 'interpolate') and evs[0][1]['args'][0] == ('ref', self_loc(ii))
                   and strip_epoch(evs[0][1]['args'][1]) == self_field(vi) and p['ret'] == ('ret', evs[0][0])
-                  and w.get(vloc) is not None and w[vloc][0] == 'op' and w[vloc][1] == 'Add' and strip_epoch(w[vloc][2]) == self_field(vi) and w[vloc][3] == ratio)
+                  and w.get(vloc) is not None and w[vloc][0] == 'op' and w[vloc][1] == 'Add' and strip_epoch(w[vloc][2]) == self_field(vi)
+                  # (the ratio may be read after the advance loop: the loop writes nothing but v and what it hands out by &mut, checked below)
+                  and strip_epoch(w[vloc][3]) == ratio)
             if not ok:
                 bad = 'with v < 1.0 it must interpolate once at v, then add the ratio to v and return the interpolated frame: [%s]' % describe_path(p)
             kinds.add('emit')
+        if not bad and not set(w) <= {vloc, self_loc(si), self_loc(ii)}:
+            bad = 'next() writes %s: only the position, the source and the interpolator may change' % sorted(short_loc(l) for l in set(w) - {vloc, self_loc(si), self_loc(ii)})
         if bad:
             break
     if not bad and kinds != {'advance', 'emit'}:
